@@ -21,6 +21,13 @@ CLAIMED = {
             "which also evaluates nesting, span and rebuild clauses on the observed events.",
             "Internal schema/enum scanners are reached through overlay-injected export files (build tag verif); schema scanner compared only "
             "on exponent-free numerals and enum scanner only on duplicate-free scalar arrays (their input languages).", "3/C06"),
+    "C19": ("TLA+ reference map (OMap) and implementation-shaped map with Go slice semantics (OMapImpl) explored in lock step by TLC over all "
+            "histories; TLC-exported reference graph with observer outputs replayed over all operation sequences on the real generated maps; race detector",
+            "TLC shows the implementation-shaped map equals the reference map through every observer after every history over 3 keys x 2 values "
+            "(state-merged: every length) and that the two recorded defect switches still break it; every operation sequence up to length 4/6 is "
+            "executed on ASTNodes, RuleASTNodes and schema.Constraints and all 13 methods are compared with the exported reference state.",
+            "Data-race freedom is observed with the Go race detector on harness-produced goroutine mixes, not proved; Constraints.MarshalJSON is "
+            "compared on entry count and key order only (it prints integer keys unquoted).", "3/C19"),
 }
 
 PENDING_REASON = "check under construction in this session - not claimed yet (no technique switch intended; see DESIGN.md section 3)"
